@@ -15,6 +15,7 @@ package main
 //   sbegin <lifetime ms> / sadv <ms> / sreq <same fields as req> / send
 //                                                     a SEQUENCE of requests on one shared admin cache (injected clock)
 //   cseq <lifetime ms> <ev>,<ev>,…                    a<ms> | c<hex user>:<T|G|F|E> | g<hex user> | p<hex user>:<0|1>
+//   cconc <lifetime ms> <ev>,<ev>,…                   overlapping admin checks, slow directory (zz_verif_c08conc_test.go)
 // Output
 //   cfg/grp/usr/endcfg: ok
 //   req:  st=<code|PANIC> chg=<h+hex,…|-> read=<h+hex,…|none> list=<0|1> cert=<h+hex|none> copy=<h+hex(owner)>h+hex(row),…|->
@@ -831,6 +832,8 @@ func TestVerifC08(t *testing.T) {
 			io.emit("ok")
 		case f[0] == "cseq" && len(f) == 3:
 			io.emit("%s", env.doCseq(f))
+		case f[0] == "cconc" && len(f) == 3: // overlapping calls, slow directory: zz_verif_c08conc_test.go
+			io.emit("%s", env.doCconc(f))
 		default:
 			io.emit("bad-op")
 		}
